@@ -1,131 +1,283 @@
-import RpmVerif.Lemmas.Fs
-import RpmVerif.Spec.Extract
+import RpmVerif.Lemmas.Contain
 namespace RpmVerif.Fs
 open RpmVerif.Extract
 
-theorem destJoin_eq (T : List Name) (s : Bytes) : destJoin T s = T ++ compsD s := by
-  unfold destJoin compsD
-  cases relComps s <;> simp
+theorem relOf_eq (s : Bytes) : relOf s = compsD s := rfl
 
-theorem compsD_normal {s : Bytes} (h : hasDotDot s = false) : ∀ c ∈ compsD s, Normal c := by
-  intro c hc
-  have h3 : c ≠ dotdot := by
-    intro he; subst he
-    unfold hasDotDot at h
-    rw [List.contains_eq_mem] at h
-    simp at h
-    exact h hc
-  unfold compsD relComps at hc
-  split at hc
-  · simp only [Option.getD_some, List.mem_filter, decide_eq_true_eq] at hc
-    exact ⟨hc.2.2, hc.2.1, h3⟩
-  · simp at hc
+/-- what `extraction_path` returns -/
+theorem extractionPath_some {T : List Name} {s : Bytes} {p} (h : extractionPath T s = some p) :
+    p = T ++ relOf s ∧ ∀ c ∈ relOf s, Normal c := by
+  unfold extractionPath at h
+  unfold relOf
+  cases hr : relComps s with
+  | none =>
+    rw [hr] at h
+    simp only [Option.some.injEq] at h
+    subst h
+    simp
+  | some cs =>
+    rw [hr] at h
+    simp only at h
+    split at h
+    · cases h
+    · rename_i hc
+      simp only [Option.some.injEq] at h
+      subst h
+      refine ⟨by simp, fun c hcm => ?_⟩
+      simp only [Option.getD_some] at hcm
+      have h3 : c ≠ dotdot := by
+        intro he; subst he
+        rw [List.contains_eq_mem] at hc
+        simp at hc
+        exact hc hcm
+      unfold relComps at hr
+      split at hr
+      · simp only [Option.some.injEq] at hr
+        subst hr
+        simp only [List.mem_filter, decide_eq_true_eq] at hcm
+        exact ⟨hcm.2.2, hcm.2.1, h3⟩
+      · cases hr
 
-theorem andThen_fs_err (fs : Fs) (e : Errno) (k : Fs → Res) : (andThen fs (.error e) k).fs = fs := rfl
-theorem andThen_ok (fs fs' : Fs) (k : Fs → Res) : andThen fs (.ok fs') k = k fs' := rfl
+/-- the loop of `refuse_symlinks` has looked at every prefix it is meant to look at -/
+theorem refuseFrom_false (fs : Fs) (last : Bool) : ∀ (cs cur : List Name), refuseFrom fs last cur cs = false →
+    ∀ k, 0 < k → k ≤ cs.length → (last = true ∨ k < cs.length) → isSymlinkAt fs (cur ++ cs.take k) = false := by
+  intro cs
+  induction cs with
+  | nil => intro cur _ k hk hk2; simp at hk2; omega
+  | cons c rest ih =>
+    intro cur h k hk hk2 hlk
+    simp only [refuseFrom, Bool.or_eq_false_iff, Bool.and_eq_false_iff] at h
+    obtain ⟨h1, h2⟩ := h
+    rcases Nat.lt_or_ge 1 k with hk1 | hk1
+    · have := ih (cur ++ [c]) h2 (k - 1) (by omega) (by simp at hk2; omega) (by
+        rcases hlk with h | h
+        · exact Or.inl h
+        · right; simp at h; omega)
+      have e : k = (k - 1) + 1 := by omega
+      rw [e]
+      simpa [List.append_assoc] using this
+    · have : k = 1 := by omega
+      subst this
+      show isSymlinkAt fs (cur ++ [c]) = false
+      rcases h1 with h1 | h1
+      · rcases hlk with h | h
+        · rw [h] at h1; simp at h1
+        · exfalso
+          have := h1.2
+          cases rest with
+          | nil => simp at h
+          | cons => simp at this
+      · exact h1
 
 section
 variable {T : Path} (hT : ∀ c ∈ T, Normal c)
 include hT
 
-theorem extractItem_good {fs : Fs} {S : List Path} (hi : Inv T fs S) (it : Item)
-    (hn : ∀ c ∈ compsD it.path, Normal c)
-    (hf : ∀ s ∈ S, ¬ s <+: T ++ followed it) :
-    Good T fs (extractItem T fs it).fs (if it.kind = .symlink then (T ++ compsD it.path) :: S else S) := by
-  unfold extractItem
-  rw [destJoin_eq]
-  cases hk : it.kind with
-  | dir =>
-    simp only [hk, followed] at hf
-    simp only [reduceCtorEq, if_false]
-    cases hc : createDirAll fs (T ++ compsD it.path) with
-    | error e => exact Good.refl hi
-    | ok fs1 =>
-      have g1 := createDirAll_good hT hi hn hf hc
-      simp only [andThen_ok]
-      cases hs : setPerm fs1 (T ++ compsD it.path) it.perm with
-      | error e => exact g1
-      | ok fs2 => exact g1.trans (setPerm_good hT g1.1 hn hf hs)
-  | regular =>
-    simp only [hk, followed] at hf
-    simp only [reduceCtorEq, if_false]
-    cases hc : fileCreate fs (T ++ compsD it.path) it.content with
-    | error e => exact Good.refl hi
-    | ok fs1 =>
-      have g1 := fileCreate_good hT hi hn hf hc
-      simp only [andThen_ok]
-      cases hs : setPerm fs1 (T ++ compsD it.path) it.perm with
-      | error e => exact g1
-      | ok fs2 => exact g1.trans (setPerm_good hT g1.1 hn hf hs)
-  | symlink =>
-    simp only [hk, followed] at hf
-    simp only [if_true]
-    have gweak : Good T fs fs ((T ++ compsD it.path) :: S) := (Good.refl hi).mono (fun q hq => List.mem_cons_of_mem _ hq)
-    split
-    · cases hu : unlink fs (T ++ compsD it.path) with
-      | error e => exact gweak
-      | ok fs1 =>
-        have g1 := unlink_good hT hi hn hf hu
-        simp only [andThen_ok]
-        cases hs : symlink fs1 (T ++ compsD it.path) it.linkto with
-        | error e => exact g1.mono (fun q hq => List.mem_cons_of_mem _ hq)
-        | ok fs2 => exact g1.trans (symlink_good hT g1.1 hn hf hs)
-    · cases hs : symlink fs (T ++ compsD it.path) it.linkto with
-      | error e => exact gweak
-      | ok fs2 => exact symlink_good hT hi hn hf hs
-  | other =>
-    simp only [reduceCtorEq, if_false]
-    exact Good.refl hi
+omit hT in
+/-- whatever exists below `T` hangs on a chain of directories down from `T` -/
+theorem tree_prefix_dirs {fs : Fs} (hi : Inv T fs) : ∀ (n : Nat) (p : List Name) (nd : Node), p.length = n →
+    fs.get (T ++ p) = some nd → ∀ j, j < p.length → ∃ m, fs.get (T ++ p.take j) = some (.dir m) := by
+  intro n
+  induction n with
+  | zero => intro p nd hl _ j hj; omega
+  | succ n ih =>
+    intro p nd hl hg j hj
+    obtain ⟨p', x, hpx⟩ : ∃ p' x, p = p' ++ [x] := by
+      rcases List.eq_nil_or_concat p with h | ⟨p', x, h⟩
+      · subst h; simp at hl
+      · exact ⟨p', x, by rw [h, List.concat_eq_append]⟩
+    subst hpx
+    have hpar : ∃ m, fs.get (T ++ p') = some (.dir m) := by
+      have := hi.tree (T ++ (p' ++ [x])) nd hg (List.prefix_append _ _) (by
+        intro he; have := congrArg List.length he; simp at this)
+      rw [← List.append_assoc, List.dropLast_concat] at this
+      exact this
+    simp at hj hl
+    rcases Nat.lt_or_ge j p'.length with hj' | hj'
+    · obtain ⟨m, hm⟩ := hpar
+      rw [List.take_append_of_le_length (by omega)]
+      exact ih p' _ hl hm j hj'
+    · have : j = p'.length := by omega
+      subst this
+      simpa using hpar
 
-theorem extractItems_good : ∀ (items : List Item) (fs : Fs) (links : List (List Name)),
-    Inv T fs (links.map (T ++ ·)) → noBelowLinkAux links items = true →
-    (∀ it ∈ items, ∀ c ∈ compsD it.path, Normal c) →
-    ∃ S', Good T fs (extractItems T fs items).fs S' := by
+/-- a link below `T` is seen by `is_symlink` -/
+theorem isSymlinkAt_true {fs : Fs} (hi : Inv T fs) {p : List Name} (hp : ∀ c ∈ p, Normal c) {t}
+    (hg : fs.get (T ++ p) = some (.symlink t)) : isSymlinkAt fs (T ++ p) = true := by
+  have hd := tree_prefix_dirs hi p.length p _ rfl hg
+  have hres : resolve fs false (T ++ p) = .ok (T ++ p) :=
+    resolve_of_dirs hT false p hp hi.dirs hd (by simp)
+  unfold isSymlinkAt
+  rw [hres]
+  simp only [hg]
+
+/-- after `refuse_symlinks` has let a path pass, no link is on the way -/
+theorem nolink_of_refuse {fs : Fs} (hi : Inv T fs) {r : List Name} (hr : ∀ c ∈ r, Normal c) {last : Bool}
+    (h : refuseSymlinks fs T r last = false) :
+    NoLinkTo fs T r (if last then r.length else r.length - 1) := by
+  intro k hk hk2 t ht
+  have hk3 : k ≤ r.length := by split at hk2 <;> omega
+  have hlk : last = true ∨ k < r.length := by
+    cases last with
+    | true => exact Or.inl rfl
+    | false => right; simp at hk2; omega
+  have h1 := refuseFrom_false fs last r T h k hk hk3 hlk
+  have h2 := isSymlinkAt_true hT hi (p := r.take k) (fun c hc => hr c (List.mem_of_mem_take hc)) ht
+  rw [h1] at h2; cases h2
+
+/-- `is_symlink` said no: no link there -/
+theorem nolink_of_not_isSymlinkAt {fs : Fs} (hi : Inv T fs) {r : List Name} (hr : ∀ c ∈ r, Normal c)
+    (h : isSymlinkAt fs (T ++ r) = false) : ∀ t, fs.get (T ++ r) ≠ some (.symlink t) := by
+  intro t ht
+  have := isSymlinkAt_true hT hi hr ht
+  rw [h] at this; cases this
+
+end
+
+/-! ### the loop bodies -/
+
+theorem andThen_fs_err (fs : Fs) (e : Errno) (k : Fs → Res) : (andThen fs (.error e) k).fs = fs := rfl
+theorem andThen_ok (fs fs' : Fs) (k : Fs → Res) : andThen fs (.ok fs') k = k fs' := rfl
+
+section
+variable {T : Path} (hT : ∀ c ∈ T, Normal c) (hne : T ≠ [])
+include hT hne
+
+/-- one entry — ANY entry — keeps the run inside the destination -/
+theorem extractItem_good {fs : Fs} (hi : Inv T fs) (it : Item) : Good T fs (extractItem T fs it).fs := by
+  unfold extractItem
+  cases hp : extractionPath T it.path with
+  | none => exact Good.refl hi
+  | some p =>
+    obtain ⟨rfl, hn⟩ := extractionPath_some hp
+    simp only
+    cases hk : it.kind with
+    | dir =>
+      simp only
+      split
+      · exact Good.refl hi
+      · rename_i href
+        have hN := nolink_of_refuse hT hi hn (by simpa using href)
+        simp only [if_true] at hN
+        cases hc : createDirAll fs (T ++ relOf it.path) with
+        | error e => exact Good.refl hi
+        | ok fs1 =>
+          obtain ⟨g1, q1⟩ := createDirAll_good hT hne hi hn hN hc
+          simp only [andThen_ok]
+          cases hs : setPerm fs1 (T ++ relOf it.path) it.perm with
+          | error e => exact g1
+          | ok fs2 =>
+            have hN1 := hN.quiet q1
+            exact g1.trans (setPerm_good hT hne g1.1 hn (hN1.mono (by omega))
+              (fun t ht => by
+                rcases Nat.eq_zero_or_pos (relOf it.path).length with h0 | h0
+                · have hr0 : relOf it.path = [] := List.length_eq_zero_iff.mp h0
+                  rw [hr0, List.append_nil] at ht
+                  obtain ⟨m, hm⟩ := g1.1.dirs T.length (by cases T with | nil => exact absurd rfl hne | cons => simp) (Nat.le_refl _)
+                  rw [List.take_length, ht] at hm; cases hm
+                · have := hN1 (relOf it.path).length h0 (Nat.le_refl _) t
+                  rw [List.take_length] at this
+                  exact this ht) hs).1
+    | regular =>
+      simp only
+      split
+      · exact Good.refl hi
+      · rename_i href
+        have hN := nolink_of_refuse hT hi hn (by simpa using href)
+        simp only [Bool.false_eq_true, if_false] at hN
+        -- step 0: a link at the very path is removed first
+        have step0 : ∀ fs0, (if isSymlinkAt fs (T ++ relOf it.path) then unlink fs (T ++ relOf it.path) else .ok fs) = .ok fs0 →
+            (Good T fs fs0 ∧ Quiet fs fs0) ∧ ∀ t, fs0.get (T ++ relOf it.path) ≠ some (.symlink t) := by
+          intro fs0 h0
+          split at h0
+          · obtain ⟨gq, hv⟩ := unlink_good hT hne hi hn hN h0
+            exact ⟨gq, fun t ht => by rw [hv] at ht; cases ht⟩
+          · rename_i hns
+            injection h0 with h0; subst h0
+            exact ⟨⟨Good.refl hi, Quiet.refl _⟩, nolink_of_not_isSymlinkAt hT hi hn (by simpa using hns)⟩
+        cases h0 : (if isSymlinkAt fs (T ++ relOf it.path) then unlink fs (T ++ relOf it.path) else Except.ok fs) with
+        | error e => exact Good.refl hi
+        | ok fs0 =>
+          obtain ⟨⟨g0, q0⟩, hl0⟩ := step0 fs0 h0
+          simp only [andThen_ok]
+          cases hc : fileCreate fs0 (T ++ relOf it.path) it.content with
+          | error e => exact g0
+          | ok fs1 =>
+            obtain ⟨⟨g1, q1⟩, m, hm⟩ := fileCreate_good hT hne g0.1 hn (hN.quiet q0) hl0 hc
+            simp only [andThen_ok]
+            cases hs : setPerm fs1 (T ++ relOf it.path) it.perm with
+            | error e => exact g0.trans g1
+            | ok fs2 =>
+              exact (g0.trans g1).trans (setPerm_good hT hne g1.1 hn ((hN.quiet q0).quiet q1)
+                (fun t ht => by rw [hm] at ht; cases ht) hs).1
+    | symlink =>
+      simp only
+      split
+      · exact Good.refl hi
+      · rename_i href
+        have hN := nolink_of_refuse hT hi hn (by simpa using href)
+        simp only [Bool.false_eq_true, if_false] at hN
+        split
+        · cases hu : unlink fs (T ++ relOf it.path) with
+          | error e => exact Good.refl hi
+          | ok fs1 =>
+            obtain ⟨⟨g1, q1⟩, _⟩ := unlink_good hT hne hi hn hN hu
+            simp only [andThen_ok]
+            cases hs : symlink fs1 (T ++ relOf it.path) it.linkto with
+            | error e => exact g1
+            | ok fs2 => exact g1.trans (symlink_good hT hne g1.1 hn (hN.quiet q1) hs)
+        · cases hs : symlink fs (T ++ relOf it.path) it.linkto with
+          | error e => exact Good.refl hi
+          | ok fs2 => exact symlink_good hT hne hi hn hN hs
+    | other => exact Good.refl hi
+
+theorem extractItems_good : ∀ (items : List Item) (fs : Fs), Inv T fs → Good T fs (extractItems T fs items).fs := by
   intro items
   induction items with
-  | nil => intro fs links hi _ _; exact ⟨_, Good.refl hi⟩
+  | nil => intro fs hi; exact Good.refl hi
   | cons it r ih =>
-    intro fs links hi hb hn
-    simp only [noBelowLinkAux, Bool.and_eq_true, List.all_eq_true, Bool.not_eq_true'] at hb
-    have hf : ∀ s ∈ links.map (T ++ ·), ¬ s <+: T ++ followed it := by
-      intro s hs hh
-      obtain ⟨l, hl, rfl⟩ := List.mem_map.mp hs
-      rw [List.prefix_append_right_inj] at hh
-      have := hb.1 l hl
-      rw [← Bool.not_eq_true, List.isPrefixOf_iff_prefix] at this
-      exact this hh
-    have g := extractItem_good hT hi it (hn it (by simp)) hf
+    intro fs hi
+    have g := extractItem_good hT hne hi it
     unfold extractItems
     split
     · rename_i u fs' heq
       rw [heq] at g
-      have hi' : Inv T fs' ((if it.kind = .symlink then compsD it.path :: links else links).map (T ++ ·)) := by
-        have := g.1
-        by_cases hk : it.kind = .symlink
-        · simpa [hk] using this
-        · simpa [hk] using this
-      obtain ⟨S', g'⟩ := ih fs' _ hi' hb.2 (fun it' h' => hn it' (by simp [h']))
-      exact ⟨S', g.trans g'⟩
-    · exact ⟨_, g⟩
+      exact g.trans (ih fs' g.1)
+    · exact g
 
-theorem extractDirs_good : ∀ (ds : List Bytes) (fs : Fs), Inv T fs [] →
-    (∀ d ∈ ds, ∀ c ∈ compsD d, Normal c) → Good T fs (extractDirs T fs ds).fs [] := by
+/-- no link at or below the destination (the state while the directory names are processed) -/
+def NoLinksUnder (T : Path) (fs : Fs) : Prop := ∀ q t, T <+: q → fs.get q ≠ some (.symlink t)
+
+omit hT hne in
+theorem NoLinksUnder.quiet {fs fs' : Fs} (h : NoLinksUnder T fs) (hq : Quiet fs fs') : NoLinksUnder T fs' := by
+  intro q t hT' ht
+  obtain ⟨t', h'⟩ := hq q t ht
+  exact h q t' hT' h'
+
+theorem extractDirs_good : ∀ (ds : List Bytes) (fs : Fs), Inv T fs → NoLinksUnder T fs →
+    Good T fs (extractDirs T fs ds).fs ∧ Quiet fs (extractDirs T fs ds).fs := by
   intro ds
   induction ds with
-  | nil => intro fs hi _; exact Good.refl hi
+  | nil => intro fs hi _; exact ⟨Good.refl hi, Quiet.refl _⟩
   | cons d r ih =>
-    intro fs hi hn
+    intro fs hi hnl
     unfold extractDirs
-    rw [destJoin_eq]
-    cases hc : createDirAll fs (T ++ compsD d) with
-    | error e => exact Good.refl hi
-    | ok fs1 =>
-      have g1 := createDirAll_good hT hi (hn d (by simp)) (by simp) hc
-      simp only [andThen_ok]
-      exact g1.trans (ih fs1 g1.1 (fun d' h' => hn d' (by simp [h'])))
+    cases hp : extractionPath T d with
+    | none => exact ⟨Good.refl hi, Quiet.refl _⟩
+    | some p =>
+      obtain ⟨rfl, hn⟩ := extractionPath_some hp
+      simp only
+      cases hc : createDirAll fs (T ++ relOf d) with
+      | error e => exact ⟨Good.refl hi, Quiet.refl _⟩
+      | ok fs1 =>
+        obtain ⟨g1, q1⟩ := createDirAll_good hT hne hi hn (fun k _ _ t => hnl _ t (List.prefix_append _ _)) hc
+        simp only [andThen_ok]
+        obtain ⟨g2, q2⟩ := ih fs1 g1.1 (hnl.quiet q1)
+        exact ⟨g1.trans g2, q1.trans q2⟩
 
 end
-/-! ### no panic -/
+
+/-! ### no panic (the repaired code has no panicking branch left) -/
 
 theorem andThen_not_panic (fs : Fs) (r : Except Errno Fs) (k : Fs → Res)
     (hk : ∀ fs', (k fs').out.isPanic = false) : (andThen fs r k).out.isPanic = false := by
@@ -133,30 +285,43 @@ theorem andThen_not_panic (fs : Fs) (r : Except Errno Fs) (k : Fs → Res)
   | error e => rfl
   | ok fs' => exact hk fs'
 
-theorem extractItem_not_panic (T : List Name) (fs : Fs) (it : Item) (h : it.kind ≠ .other) :
-    (extractItem T fs it).out.isPanic = false := by
+theorem extractItem_not_panic (T : List Name) (fs : Fs) (it : Item) : (extractItem T fs it).out.isPanic = false := by
   unfold extractItem
-  cases hk : it.kind with
-  | other => exact absurd hk h
-  | dir => exact andThen_not_panic _ _ _ (fun _ => andThen_not_panic _ _ _ (fun _ => rfl))
-  | regular => exact andThen_not_panic _ _ _ (fun _ => andThen_not_panic _ _ _ (fun _ => rfl))
-  | symlink =>
+  cases extractionPath T it.path with
+  | none => rfl
+  | some p =>
     simp only
-    split
-    · exact andThen_not_panic _ _ _ (fun _ => andThen_not_panic _ _ _ (fun _ => rfl))
-    · exact andThen_not_panic _ _ _ (fun _ => rfl)
+    cases it.kind with
+    | other => rfl
+    | dir =>
+      simp only
+      split
+      · rfl
+      · exact andThen_not_panic _ _ _ (fun _ => andThen_not_panic _ _ _ (fun _ => rfl))
+    | regular =>
+      simp only
+      split
+      · rfl
+      · exact andThen_not_panic _ _ _ (fun _ => andThen_not_panic _ _ _ (fun _ => andThen_not_panic _ _ _ (fun _ => rfl)))
+    | symlink =>
+      simp only
+      split
+      · rfl
+      · split
+        · exact andThen_not_panic _ _ _ (fun _ => andThen_not_panic _ _ _ (fun _ => rfl))
+        · exact andThen_not_panic _ _ _ (fun _ => rfl)
 
 theorem extractItems_not_panic (T : List Name) : ∀ (items : List Item) (fs : Fs),
-    (∀ it ∈ items, it.kind ≠ .other) → (extractItems T fs items).out.isPanic = false := by
+    (extractItems T fs items).out.isPanic = false := by
   intro items
   induction items with
-  | nil => intro fs _; rfl
+  | nil => intro fs; rfl
   | cons it r ih =>
-    intro fs h
+    intro fs
     unfold extractItems
-    have h1 := extractItem_not_panic T fs it (h it (by simp))
+    have h1 := extractItem_not_panic T fs it
     split
-    · exact ih _ (fun it' h' => h it' (by simp [h']))
+    · exact ih _
     · exact h1
 
 theorem extractDirs_not_panic (T : List Name) : ∀ (ds : List Bytes) (fs : Fs),
@@ -164,7 +329,28 @@ theorem extractDirs_not_panic (T : List Name) : ∀ (ds : List Bytes) (fs : Fs),
   intro ds
   induction ds with
   | nil => intro fs; rfl
-  | cons d r ih => intro fs; unfold extractDirs; exact andThen_not_panic _ _ _ (fun fs' => ih fs')
+  | cons d r ih =>
+    intro fs
+    unfold extractDirs
+    cases extractionPath T d with
+    | none => rfl
+    | some p => exact andThen_not_panic _ _ _ (fun fs' => ih fs')
+
+theorem extract_not_panic (inp : Input) (T : List Name) (fs : Fs) : (extract inp T fs).out.isPanic = false := by
+  unfold extract
+  refine andThen_not_panic _ _ _ (fun fs0 => ?_)
+  cases inp.dirnames with
+  | none => rfl
+  | some ds =>
+    simp only
+    have h1 := extractDirs_not_panic T ds fs0
+    split
+    · rename_i u fs1 heq
+      have h2 := extractItems_not_panic T inp.items fs1
+      split
+      · split <;> rfl
+      · exact h2
+    · exact h1
 
 /-! ### the log is sound -/
 
@@ -223,20 +409,36 @@ theorem andThen_logged {fs : Fs} {r : Except Errno Fs} {k : Fs → Res}
 
 theorem extractItem_logged (T : List Name) (fs : Fs) (it : Item) : Logged fs (extractItem T fs it).fs := by
   unfold extractItem
-  cases it.kind with
-  | dir =>
-    exact andThen_logged (fun _ h => cdaRev_logged _ _ _ h) (fun fs1 _ =>
-      andThen_logged (fun _ h => setPerm_logged h) (fun _ _ => Logged.refl _))
-  | regular =>
-    exact andThen_logged (fun _ h => fileCreate_logged h) (fun fs1 _ =>
-      andThen_logged (fun _ h => setPerm_logged h) (fun _ _ => Logged.refl _))
-  | symlink =>
+  cases extractionPath T it.path with
+  | none => exact Logged.refl _
+  | some p =>
     simp only
-    split
-    · exact andThen_logged (fun _ h => unlink_logged h) (fun fs1 _ =>
-        andThen_logged (fun _ h => symlink_logged h) (fun _ _ => Logged.refl _))
-    · exact andThen_logged (fun _ h => symlink_logged h) (fun _ _ => Logged.refl _)
-  | other => exact Logged.refl _
+    cases it.kind with
+    | dir =>
+      simp only
+      split
+      · exact Logged.refl _
+      · exact andThen_logged (fun _ h => cdaRev_logged _ _ _ h) (fun fs1 _ =>
+          andThen_logged (fun _ h => setPerm_logged h) (fun _ _ => Logged.refl _))
+    | regular =>
+      simp only
+      split
+      · exact Logged.refl _
+      · refine andThen_logged (fun fs0 h => ?_) (fun fs0 _ =>
+          andThen_logged (fun _ h => fileCreate_logged h) (fun fs1 _ =>
+            andThen_logged (fun _ h => setPerm_logged h) (fun _ _ => Logged.refl _)))
+        split at h
+        · exact unlink_logged h
+        · injection h with h; subst h; exact Logged.refl _
+    | symlink =>
+      simp only
+      split
+      · exact Logged.refl _
+      · split
+        · exact andThen_logged (fun _ h => unlink_logged h) (fun fs1 _ =>
+            andThen_logged (fun _ h => symlink_logged h) (fun _ _ => Logged.refl _))
+        · exact andThen_logged (fun _ h => symlink_logged h) (fun _ _ => Logged.refl _)
+    | other => exact Logged.refl _
 
 theorem extractItems_logged (T : List Name) : ∀ (items : List Item) (fs : Fs), Logged fs (extractItems T fs items).fs := by
   intro items
@@ -257,7 +459,9 @@ theorem extractDirs_logged (T : List Name) : ∀ (ds : List Bytes) (fs : Fs), Lo
   | cons d r ih =>
     intro fs
     unfold extractDirs
-    exact andThen_logged (fun _ h => cdaRev_logged _ _ _ h) (fun fs1 _ => ih fs1)
+    cases extractionPath T d with
+    | none => exact Logged.refl _
+    | some p => exact andThen_logged (fun _ h => cdaRev_logged _ _ _ h) (fun fs1 _ => ih fs1)
 
 /-- the log is sound for EVERY run: whatever differs afterwards was logged -/
 theorem extract_logged (inp : Input) (T : List Name) (fs : Fs) : Logged fs (extract inp T fs).fs := by
@@ -278,5 +482,107 @@ theorem extract_logged (inp : Input) (T : List Name) (fs : Fs) : Logged fs (extr
         split <;> exact g1.trans g2
       · exact g1.trans g2
     · exact g1
+
+
+/-! ### helpers for runs in which nothing is refused -/
+
+theorem compsD_normal {s : Bytes} (h : hasDotDot s = false) : ∀ c ∈ compsD s, Normal c := by
+  intro c hc
+  have h3 : c ≠ dotdot := by
+    intro he; subst he
+    unfold hasDotDot at h
+    rw [List.contains_eq_mem] at h
+    simp at h
+    exact h hc
+  unfold compsD relComps at hc
+  split at hc
+  · simp only [Option.getD_some, List.mem_filter, decide_eq_true_eq] at hc
+    exact ⟨hc.2.2, hc.2.1, h3⟩
+  · simp at hc
+
+theorem extractionPath_normal (T : List Name) {s : Bytes} (hn : ∀ x ∈ compsD s, Normal x) :
+    extractionPath T s = some (T ++ compsD s) := by
+  unfold extractionPath
+  unfold compsD at hn ⊢
+  cases hr : relComps s with
+  | none => simp
+  | some cs =>
+    rw [hr] at hn
+    simp only [Option.getD_some] at hn ⊢
+    have hm : ¬ dotdot ∈ cs := fun hm => (hn dotdot hm).2.2 rfl
+    simp [hm]
+
+theorem isSymlinkAt_false_of_nolink {fs : Fs} {cs : List Name} (hne : cs ≠ []) (hn : ∀ c ∈ cs, Normal c)
+    (hs : ∀ k, 0 < k → k ≤ cs.length → ∀ t, fs.get (cs.take k) ≠ some (.symlink t)) :
+    isSymlinkAt fs cs = false := by
+  unfold isSymlinkAt
+  cases hr : resolve fs false cs with
+  | error e => rfl
+  | ok q =>
+    have := resolve_exact fs false cs hn (fun k hk hk2 => hs k hk (Nat.le_of_lt hk2)) (by simp) hr
+    subst this
+    simp only
+    cases hg : fs.get q with
+    | none => rfl
+    | some n =>
+      cases n with
+      | dir => rfl
+      | file => rfl
+      | symlink t =>
+        have h0 : 0 < q.length := by cases q with | nil => exact absurd rfl hne | cons => simp
+        exact absurd (by simpa using hg) (hs q.length h0 (Nat.le_refl _) t)
+
+/-- `refuse_symlinks` lets a path pass when there is no link on it -/
+theorem refuseFrom_eq_false (fs : Fs) (last : Bool) : ∀ (cs cur : List Name),
+    (∀ k, 0 < k → k ≤ cs.length → (last = true ∨ k < cs.length) → isSymlinkAt fs (cur ++ cs.take k) = false) →
+    refuseFrom fs last cur cs = false := by
+  intro cs
+  induction cs with
+  | nil => intro cur _; rfl
+  | cons c rest ih =>
+    intro cur h
+    simp only [refuseFrom, Bool.or_eq_false_iff, Bool.and_eq_false_iff]
+    refine ⟨?_, ih (cur ++ [c]) (fun k hk hk2 hlk => ?_)⟩
+    · by_cases hc : last = true ∨ 1 < (c :: rest).length
+      · right
+        have := h 1 (by omega) (by simp) hc
+        simpa using this
+      · left
+        simp only [not_or, Bool.not_eq_true] at hc
+        refine ⟨hc.1, ?_⟩
+        have : rest = [] := by
+          cases rest with
+          | nil => rfl
+          | cons => simp at hc
+        simp [this]
+    · have := h (k + 1) (by omega) (by simp; omega) (by
+        rcases hlk with h' | h'
+        · exact Or.inl h'
+        · right; simp; omega)
+      simpa [List.append_assoc] using this
+
+theorem refuse_false {fs : Fs} {T r : List Name} (hne : T ≠ []) (hT : ∀ c ∈ T, Normal c) (hr : ∀ c ∈ r, Normal c)
+    (htop : ∀ k, 0 < k → k ≤ T.length → ∃ m, fs.get (T.take k) = some (.dir m)) (last : Bool)
+    (hnl : ∀ k, k ≤ r.length → (last = true ∨ k < r.length) → ∀ t, fs.get (T ++ r.take k) ≠ some (.symlink t)) :
+    refuseSymlinks fs T r last = false := by
+  refine refuseFrom_eq_false fs last r T (fun k hk hk2 hlk => ?_)
+  refine isSymlinkAt_false_of_nolink (by simp [hne]) ?_ ?_
+  · intro c hc
+    rcases List.mem_append.mp hc with hc | hc
+    · exact hT c hc
+    · exact hr c (List.mem_of_mem_take hc)
+  · intro j hj hj2 t ht
+    by_cases hle : j ≤ T.length
+    · rw [take_append_le T _ j hle] at ht
+      obtain ⟨m, hm⟩ := htop j hj hle
+      rw [hm] at ht; cases ht
+    · rw [take_append_ge T _ j (by omega), List.take_take] at ht
+      simp at hj2
+      have hmin : min (j - T.length) k = j - T.length := by omega
+      rw [hmin] at ht
+      refine hnl (j - T.length) (by omega) ?_ t ht
+      rcases hlk with h | h
+      · exact Or.inl h
+      · right; omega
 
 end RpmVerif.Fs
